@@ -21,7 +21,7 @@ abbrev Str := List Nat
 
 /-- Python exception types that can escape the modelled functions -/
 inductive PyExc
-  | valueError | fileExistsError | fileNotFoundError | notADirectoryError | usageException | keyError
+  | valueError | fileExistsError | fileNotFoundError | notADirectoryError | usageException | keyError | runtimeException
   deriving DecidableEq, Repr
 
 def PyExc.name : PyExc → String
@@ -31,6 +31,7 @@ def PyExc.name : PyExc → String
   | .notADirectoryError => "NotADirectoryError"
   | .usageException => "QMI_UsageException"
   | .keyError => "KeyError"
+  | .runtimeException => "QMI_RuntimeException"
 
 deriving instance DecidableEq for Except
 
